@@ -80,7 +80,7 @@ def run_one(edit, prop: str) -> Dict:
         if not ok:
             res["output_tail"] = out[-1500:]
         else:
-            res["reported"] = [l for l in out.splitlines() if l.startswith("[" + prop)][:2]
+            res["reported"] = [l for l in out.splitlines() if l.startswith("[" + prop + "-")][:2]
         return res
     finally:
         shutil.rmtree(tmp, ignore_errors=True)
